@@ -36,6 +36,12 @@ def main():
     out = {"name": name, "patch": patch, "checks": {}}
     try:
         a = sh(["git", "-C", wt, "apply", os.path.abspath(patch)])
+        if a.returncode != 0:
+            # /repo HEAD has moved since the patch was written (fix commits): merge it
+            a = sh(["git", "-C", wt, "apply", "--3way", os.path.abspath(patch)])
+            if a.returncode == 0:
+                sh(["git", "-C", wt, "reset", "-q"])
+                out["applied_with_3way"] = True
         out["applies"] = a.returncode == 0
         if a.returncode != 0:
             out["apply_error"] = a.stderr[-300:]
